@@ -20,6 +20,7 @@ type xTok struct {
 	block                      string // heading<n> | para | quote | code | list | cell
 	meta                       bool   // the text contains Markdown metacharacters
 	tight                      bool   // no blank between this run and a neighbour
+	wide                       bool   // the text holds blank-separated words of a script written without blanks
 }
 
 var c20Meta = []string{"*", "_", "`", "|", "#", ">", "[x]", "~~", "1.", "a*b*c", "_u_", "<t>", "\\", "- "}
@@ -63,6 +64,20 @@ func c20Doc(r *rng.R, allowMeta bool, keepTight int, boundaries map[string]int, 
 			default:
 				t.text = t.tok + m + "z"
 			}
+		}
+		if r.Chance(1, 6) {
+			// words in a script that is written without blanks between words, separated by blanks all the same (name lists,
+			// label/value sequences): the blanks are text like any other
+			cjk := [][]string{{"张三", "李四", "王五"}, {"项目名称", "文档转换工具"}, {"参会人员", "赵六", "孙七", "周八"}, {"かな", "カナ"}}[r.Intn(4)]
+			switch r.Intn(3) {
+			case 0:
+				t.text = t.text + " " + strings.Join(cjk, " ")
+			case 1:
+				t.text = strings.Join(cjk, " ") + " " + t.text
+			default:
+				t.text = cjk[0] + " " + t.text + " " + strings.Join(cjk[1:], " ")
+			}
+			t.wide = true
 		}
 		var f *document.TextFormat
 		if formatted {
@@ -249,6 +264,57 @@ func c20Doc(r *rng.R, allowMeta bool, keepTight int, boundaries map[string]int, 
 }
 
 var c20TokRe = regexp.MustCompile(`w\d+x`)
+
+type c20Text struct{ kind, text string }
+
+// norm is the text as a reader sees it: runs of white space are one blank, the list glyph of converter-made items is not text;
+// code lines keep their leading white space.
+func (t c20Text) norm() string {
+	if t.kind == "code" {
+		return strings.TrimRight(t.text, " \t\n")
+	}
+	return strings.TrimPrefix(strings.Join(strings.Fields(t.text), " "), "• ")
+}
+
+// c20Texts lists the text of every body paragraph and of every cell paragraph.
+func c20Texts(d *document.Document) []c20Text {
+	var out []c20Text
+	para := func(p *document.Paragraph, kind string) {
+		var sb strings.Builder
+		for _, run := range p.Runs {
+			sb.WriteString(run.Text.Content)
+		}
+		if kind == "" {
+			kind = "para"
+			if p.Properties != nil && p.Properties.ParagraphStyle != nil {
+				switch st := p.Properties.ParagraphStyle.Val; {
+				case strings.HasPrefix(st, "Heading"):
+					kind = "heading"
+				case st == "Quote":
+					kind = "quote"
+				case st == "CodeBlock":
+					kind = "code"
+				}
+			}
+		}
+		out = append(out, c20Text{kind, sb.String()})
+	}
+	for _, el := range d.Body.Elements {
+		switch v := el.(type) {
+		case *document.Paragraph:
+			para(v, "")
+		case *document.Table:
+			for i := range v.Rows {
+				for j := range v.Rows[i].Cells {
+					for k := range v.Rows[i].Cells[j].Paragraphs {
+						para(&v.Rows[i].Cells[j].Paragraphs[k], "cell")
+					}
+				}
+			}
+		}
+	}
+	return out
+}
 
 // blockOf classifies the paragraph/table a token sits in (for the converted-back document).
 func c20Blocks(d *document.Document) map[string]string {
@@ -495,7 +561,7 @@ func c20Run(c *core.Ctx, keepTight int) (*core.Result, []string) {
 	// 2. formatting markers around each formatted run
 	em := opts.EmphasisMarker
 	for _, t := range toks {
-		if t.meta || t.tight || t.block != "para" {
+		if t.meta || t.wide || t.tight || t.block != "para" {
 			continue
 		}
 		i := strings.Index(md1, t.tok)
@@ -584,6 +650,42 @@ func c20Run(c *core.Ctx, keepTight int) (*core.Result, []string) {
 			res.Add("roundtrip/"+cls+"/block-kind-changed/"+strings.TrimRight(want, "0123456789")+"->"+strings.TrimRight(got, "0123456789"), fmt.Sprintf("%s was in a %s block and comes back in a %s block", t.tok, want, got), optNote, md1)
 		}
 	}
+	// the text of every block comes back as it was (runs of white space count as one blank; code lines keep their indentation)
+	orig, conv := c20Texts(d), c20Texts(d2)
+	tightTok := map[string]bool{}
+	for _, t := range toks {
+		if t.tight {
+			tightTok[t.tok] = true
+		}
+	}
+	for _, ot := range orig {
+		ids := c20TokRe.FindAllString(ot.text, -1)
+		if len(ids) == 0 {
+			continue
+		}
+		skip := false
+		for _, id := range ids {
+			skip = skip || tightTok[id]
+		}
+		if skip {
+			continue // touching runs: see the diagnosis in c20Case
+		}
+		for _, ct := range conv {
+			if !strings.Contains(ct.text, ids[0]) {
+				continue
+			}
+			res.Count("roundtrip_block_texts_compared", 1)
+			a, b := ot.norm(), ct.norm()
+			if a != b {
+				what := "text-changed"
+				if strings.Join(strings.Fields(a), "") == strings.Join(strings.Fields(b), "") {
+					what = "blank-lost-or-added"
+				}
+				res.Add("roundtrip/"+cls+"/"+what+"/"+ot.kind, fmt.Sprintf("a %s block read %q and reads %q after export and conversion", ot.kind, a, b), optNote, md1)
+			}
+			break
+		}
+	}
 	var md2 string
 	if cg := core.Catch(func() { md2, err = markdown.NewExporter(opts).ExportToString(d2, opts) }); cg != nil {
 		res.Add("roundtrip/export/"+cg.Key(), "second export panicked: "+cg.Msg, cg.Stack)
@@ -615,8 +717,8 @@ func init() {
 	core.Register(&core.Check{
 		ID:    "C20",
 		Level: "exploration",
-		Rule: "documents from the exporter's vocabulary: headings 1-6, paragraphs of 1-4 runs with any of the sixteen bold/italic/strike/code-font combinations, the blank between two runs at the start of the second, the end of the first, both, in a run of its own, around an empty run, or (half of the cases) absent so that the runs touch inside one word, Quote and CodeBlock paragraphs (with indentation), bullet list paragraphs, tables of 1-3 x 1-3 cells, empty paragraphs, in any interleaving; every run text is a unique token, in odd cases with Markdown metacharacters (* _ ` | # > [x] ~~ 1. \\ -) around it; export options: GFM or simple tables, setext, bullet marker - * +, emphasis marker * _, wrapping at 10/20/40/80. " +
-			"Oracle: every token occurs exactly once in the Markdown and the tokens are in body order; formatted runs are enclosed by exactly their markers (independent tokenisation around the token); converting the Markdown back gives every token in a block of the same kind; a second export of the converted document equals the first. Non-trivial: >=3 run texts; distinct = options + Markdown.",
+		Rule: "documents from the exporter's vocabulary: headings 1-6, paragraphs of 1-4 runs with any of the sixteen bold/italic/strike/code-font combinations, the blank between two runs at the start of the second, the end of the first, both, in a run of its own, around an empty run, or (half of the cases) absent so that the runs touch inside one word, Quote and CodeBlock paragraphs (with indentation), bullet list paragraphs, tables of 1-3 x 1-3 cells, empty paragraphs, in any interleaving; every run text is a unique token, one in six with blank-separated CJK/kana words around it, in odd cases with Markdown metacharacters (* _ ` | # > [x] ~~ 1. \\ -) around it; export options: GFM or simple tables, setext, bullet marker - * +, emphasis marker * _, wrapping at 10/20/40/80. " +
+			"Oracle: every token occurs exactly once in the Markdown and the tokens are in body order; formatted runs are enclosed by exactly their markers (independent tokenisation around the token); converting the Markdown back gives every token in a block of the same kind and every block the text it had (runs of white space count as one blank, code lines keep their indentation; blocks with touching runs excepted); a second export of the converted document equals the first. Non-trivial: >=3 run texts; distinct = options + Markdown.",
 		Cases:         func(t string) int { return tierN(t, 40000, 1000000) },
 		Run:           c20Case,
 		Assume:        []string{"heading levels 7-9 do not exist in Markdown and are not generated", "blank-line layout and the escaping style of the first export are free as long as the round trip holds", "runs that touch are generated only with a letter or digit on both sides of the boundary", "a rejected case with touching runs is re-run with one touching boundary at a time; the boundary is classified by CommonMark's flanking rules (touchingReason)"},
